@@ -196,11 +196,14 @@ enum Outcome { REJECTED, RETURNED_FIELD, FOREIGN_EXCEPTION };
 
 // offers one damaged stream to the loader, in-process
 template <class Z>
-inline Outcome offer(FaultyBuf & fb, bool prefail, std::string & what)
+inline Outcome offer(FaultyBuf & fb, bool prefail, std::string & what, std::ios::iostate mask = std::ios::goodbit)
 {
     std::istream is(&fb);
     if (prefail) is.setstate(std::ios::failbit);
     try {
+        // the caller may have asked the stream to throw on failure (ifs.exceptions(failbit | badbit)): whichever
+        // exception reaches the caller then, it is an exception and not an abort
+        if (mask != std::ios::goodbit) is.exceptions(mask);
         typename Z::field_t g(is);
         return RETURNED_FIELD;
     } catch (const std::exception & e) {
@@ -213,14 +216,14 @@ inline Outcome offer(FaultyBuf & fb, bool prefail, std::string & what)
 }
 
 template <class Z>
-inline void one_fault(const std::string & key_kind, const std::string & detail, FaultyBuf & fb, bool prefail, uint64_t h)
+inline void one_fault(const std::string & key_kind, const std::string & detail, FaultyBuf & fb, bool prefail, uint64_t h, std::ios::iostate mask = std::ios::goodbit)
 {
     vh::set_case("%s %s %s", Z::name(), key_kind.c_str(), detail.c_str());
 #if defined(VH_VALGRIND)
     unsigned long e0 = VALGRIND_COUNT_ERRORS;
 #endif
     std::string what;
-    Outcome o = offer<Z>(fb, prefail, what);
+    Outcome o = offer<Z>(fb, prefail, what, mask);
     vh::ev();
     vh::nontrivial(vh::mix(vh::fnv(key_kind, vh::fnv(Z::name())), h));
     vh::stat("faults:" + key_kind);
@@ -271,6 +274,16 @@ inline void drive_c08()
         if (d.size() > cap && n > 600 && n + 600 < d.size() && n % 13 != 0) continue;
         FaultyBuf fb(d.substr(0, n));
         one_fault<Z>("truncated", "prefix of " + std::to_string(n) + "/" + std::to_string(d.size()) + " bytes", fb, false, n);
+        // the same prefix on a stream whose exception mask is set (three masks in rotation)
+        static const std::ios::iostate masks[3] = {std::ios::failbit | std::ios::badbit, std::ios::badbit | std::ios::eofbit, std::ios::failbit | std::ios::badbit | std::ios::eofbit};
+        FaultyBuf fm(d.substr(0, n));
+        one_fault<Z>("truncated-exceptions-mask", "prefix of " + std::to_string(n) + "/" + std::to_string(d.size()) + " bytes, stream.exceptions(mask #" + std::to_string(n % 3) + ")", fm, false, n, masks[n % 3]);
+    }
+    {
+        // control: a complete dump loads from a stream with an exception mask, too
+        FaultyBuf fb(d);
+        std::string what;
+        if (offer<Z>(fb, false, what, std::ios::failbit | std::ios::badbit) != RETURNED_FIELD) vh::viol("control:undamaged-dump-rejected-with-exception-mask", std::string(Z::type_string()) + ": " + what);
     }
     if (d.size() <= cap) vh::stat("dumps_with_complete_prefix_enumeration");
     // (2) header / footer / tag / width words
@@ -332,6 +345,9 @@ inline void drive_c08()
                 fb.throwing = thr;
                 one_fault<Z>(thr ? "stream-throws" : "stream-fails", "from read call " + std::to_string(n) + " of " + std::to_string(ncalls), fb, false, (uint64_t)n * 2 + thr);
             }
+            FaultyBuf fm(d);
+            fm.fail_call = n;
+            one_fault<Z>("stream-fails-exceptions-mask", "from read call " + std::to_string(n) + " of " + std::to_string(ncalls) + ", stream.exceptions(failbit|badbit)", fm, false, (uint64_t)n, std::ios::failbit | std::ios::badbit);
         }
         FaultyBuf fb(d);
         one_fault<Z>("stream-already-failed", "failbit set before loading", fb, true, 0);
